@@ -27,7 +27,7 @@ import (
 func init() { register("C15", "fault_enumeration", runC15) }
 
 // server message alphabet
-var c15Alphabet = []string{"SF", "SFn", "SFt", "SFm", "V", "Vk", "Vx", "Vp", "Ve", "Er", "E", "J", "235", "535"}
+var c15Alphabet = []string{"SF", "SFn", "SFt", "SFm", "SFz", "V", "Vk", "Vx", "Vp", "Ve", "Vz", "Er", "E", "J", "235", "535"}
 
 type c15Case struct {
 	Mech   string   `json:"mech"`
@@ -84,6 +84,7 @@ func c15Handler(c c15Case, tr *c15Trace) refsmtp.AuthHandler {
 			tr.Steps = append(tr.Steps, st)
 			tr.mu.Unlock()
 		}
+		lastClientFinal := ""
 		consume := func(resp []byte) string {
 			switch {
 			case len(resp) == 0:
@@ -102,6 +103,7 @@ func c15Handler(c c15Case, tr *c15Trace) refsmtp.AuthHandler {
 				}
 				return "client-first"
 			case strings.HasPrefix(string(resp), "c="):
+				lastClientFinal = string(resp)
 				if sfValid {
 					if ok, _ := x.VerifyClientFinal(resp); ok {
 						haveFin = true
@@ -162,6 +164,20 @@ func c15Handler(c c15Case, tr *c15Trace) refsmtp.AuthHandler {
 				msg = []byte("r=" + x.ClientNonce + cfg.ServerNonce + ",s=%%%notbase64%%%,i=many")
 				x.SetServerFirst(msg)
 				sfValid = false
+			case "SFz":
+				// correct nonce extension, iteration count 0: no key may be derivable without the password
+				msg = []byte("r=" + x.ClientNonce + cfg.ServerNonce + ",s=" + base64.StdEncoding.EncodeToString(cfg.Salt) + ",i=0")
+				x.SetServerFirst(msg)
+				sfValid = false
+			case "Vz":
+				// signed with a salted password of zero octets (what a key derivation that ran zero rounds would yield)
+				cfnp := strings.SplitN(lastClientFinal, ",p=", 2)[0]
+				am := x.ClientFirstBare + "," + x.ServerFirstMsg + "," + cfnp
+				sk := hmac.New(hf, make([]byte, hf().Size()))
+				sk.Write([]byte("Server Key"))
+				sg := hmac.New(hf, sk.Sum(nil))
+				sg.Write([]byte(am))
+				msg = []byte("v=" + base64.StdEncoding.EncodeToString(sg.Sum(nil)))
 			case "V":
 				msg = x.ServerFinal()
 				st.ValidHere = haveCF && sfValid && haveFin
@@ -299,8 +315,10 @@ func runC15Case(r *ev.Run, c c15Case) (open bool) {
 	invalidAcked := false // the client acknowledged a v= message that is not the valid one
 	for i, st := range steps {
 		switch st.Sym {
-		case "SF", "SFn", "SFt", "SFm", "J":
-			if !st.ValidHere && st.RespKind == "client-final" {
+		case "SF", "SFn", "SFt", "SFm", "SFz", "J":
+			// (an iteration count of 0 is out of range, but answering it gives nothing away as long as the key still
+			// depends on the password: only the acknowledgement of a forged server-final is judged for SFz)
+			if !st.ValidHere && st.RespKind == "client-final" && st.Sym != "SFz" {
 				viol("continue-after-invalid-server-first:"+st.Sym, fmt.Sprintf("step %d: the client answered %s (%q) with a client-final message instead of aborting", i, st.Sym, ev.Trunc(st.Sent, 80)), steps)
 			}
 			if st.Sym == "J" && (st.RespKind == "client-final" || st.RespKind == "ack") {
@@ -311,13 +329,13 @@ func runC15Case(r *ev.Run, c c15Case) (open bool) {
 				invalidAcked = true
 				viol("ack-server-error-message", fmt.Sprintf("step %d: the client answered the server-error message %q with %s instead of ending the exchange with an error", i, st.Sent, st.RespKind), steps)
 			}
-		case "V", "Vk", "Vx", "Vp", "Ve":
+		case "V", "Vk", "Vx", "Vp", "Ve", "Vz":
 			if st.RespKind == "ack" {
 				if st.ValidHere {
 					proofSeen = true
 				} else {
 					invalidAcked = true
-					kind := map[string]string{"V": "ack-server-final-without-valid-exchange", "Vk": "ack-server-final-of-other-key", "Vx": "ack-server-final-of-other-exchange", "Vp": "ack-replayed-server-final-of-abandoned-exchange", "Ve": "ack-server-final-over-empty-state"}[st.Sym]
+					kind := map[string]string{"V": "ack-server-final-without-valid-exchange", "Vk": "ack-server-final-of-other-key", "Vx": "ack-server-final-of-other-exchange", "Vp": "ack-replayed-server-final-of-abandoned-exchange", "Ve": "ack-server-final-over-empty-state", "Vz": "ack-server-final-of-zero-key"}[st.Sym]
 					viol(kind, fmt.Sprintf("step %d: the client acknowledged a server-final message that is not the valid one for the running exchange (%s)", i, st.Sym), steps)
 				}
 			} else if st.ValidHere && (st.RespKind == "cancel" || st.RespKind == "closed") {
@@ -488,7 +506,7 @@ func runC15Unusable(r *ev.Run, c c15UnusableCase) {
 
 func runC15(r *ev.Run, rep *ev.ReplayDoc) ev.Summary {
 	sum := ev.Summary{
-		Rule: "exhaustive adaptive server message sequences over the alphabet {valid server-first, server-first with foreign / truncated nonce, malformed server-first, valid server-final, server-final of another key, of another exchange, over empty client state, server-error (e=...), empty challenge, junk, 235, 535} up to length 5 (quick: 4), explored as an execution tree (a branch is extended only while the client is still inside the exchange), for SCRAM-SHA-1, SCRAM-SHA-256 and both -PLUS variants (TLS 1.2 and 1.3), through mail.Client and directly through smtp.Client.Auth. 'valid' symbols are computed from what the client actually sent. Plus: passwords the SCRAM password preparation refuses, one smtp.Auth value used for three exchanges against a server that does not know the password and signs with the empty one. non-trivial = script deviates from the honest sequence; distinct by (mechanism, script)",
+		Rule: "exhaustive adaptive server message sequences over the alphabet {valid server-first, server-first with foreign / truncated nonce, malformed server-first, server-first with iteration count 0, valid server-final, server-final signed with an all-zero key, server-final of another key, of another exchange, over empty client state, server-error (e=...), empty challenge, junk, 235, 535} up to length 5 (quick: 4), explored as an execution tree (a branch is extended only while the client is still inside the exchange), for SCRAM-SHA-1, SCRAM-SHA-256 and both -PLUS variants (TLS 1.2 and 1.3), through mail.Client and directly through smtp.Client.Auth. 'valid' symbols are computed from what the client actually sent. Plus: passwords the SCRAM password preparation refuses, one smtp.Auth value used for three exchanges against a server that does not know the password and signs with the empty one. non-trivial = script deviates from the honest sequence; distinct by (mechanism, script)",
 		Assumptions: []string{
 			"the honest sequence is: empty challenge -> client-first, server-first, client-final, server-final, empty acknowledgement, 235",
 			"success may only be reported if a valid server-final for the running exchange was acknowledged before the final reply",
